@@ -25,7 +25,7 @@ FIXED_ASSUMPTIONS = [
     "sequential semantics of std::sync::atomic, arc_swap::{ArcSwap,ArcSwapOption} (rcu / fetch_update = one atomic step), RwLock (never poisoned), Arc (clone = alias): the generated cell shims; memory orderings ignored",
     "user closures (f, condition, reducer, iterators) are deterministic, do not panic and do not call back into the operator; Clone on data values is faithful (clone_val)",
     "profile T units (C18, C19): `interfere_raw` / `call_raw` (any number of atomic steps of the other threads: they preserve the invariant and satisfy `rely`) are assumed; that every thread's checked guarantee implies the others' rely (tickets = sum of the threads' shares) is the standard rely/guarantee meta-argument, not machine-checked; sequentially consistent interleaving at shared-access granularity, one member = one thread, passive sink",
-    "peers are spec-conformant as the properties stipulate; sources may greet after the subscribing call returned for the unary operators, for_each, merge, concat and flatten (LATE environment); combine's members greet inside the subscribing call and share is proved without nested fan-out and without another sink acting during a delivery: those histories are explored by the bounded supplement only (coverage.supplementary_bounded_exploration)",
+    "peers are spec-conformant as the properties stipulate; sources may greet after the subscribing call returned for the unary operators, for_each, merge, concat, flatten and combine (LATE environment); share is proved without nested fan-out and without another sink acting during a delivery: those histories are explored by the bounded supplement only (coverage.supplementary_bounded_exploration)",
     "assume/guarantee soundness argument of DESIGN 2.6 (environment = most general conformant peer, verified against the handler contracts) is a meta-level step, not machine-checked",
     "partial correctness only (exec_allows_no_decreases_clause on handlers and environment); liveness is phrased as safety at quiescence",
     "interval: fewer than usize::MAX ticks, real time not modelled; flatten: fewer than usize::MAX inner sources per subscription",
@@ -523,13 +523,11 @@ def thread_search(template, pid, secs):
 
 
 # Histories the proved profile of an operator does not contain, although the properties quantify over them
-# (share: a fan-out nested inside another; combine: members that greet after the subscribing call returned).
+# (share: a fan-out nested inside another, or another sink acting during a delivery).
 # They are explored by the bounded stand-in on every run, as a labelled supplement to the proof.
 PROFILE_GAPS = {
     "share": {"scenarios": ["share2", "share3", "share3X"], "why": "nested fan-out (a sink pulls from inside its handler and the source answers at once) and another sink acting during a delivery (share3X) are outside profile R of the unit share",
               "properties": ["C01", "C02", "C03", "C04", "C05", "C12", "C17"]},
-    "combine": {"scenarios": ["combine2L"], "why": "members of combine that greet after the subscribing call returned are outside the profile of the units combineN",
-                "properties": ["C01", "C02", "C03", "C04", "C05", "C10", "C17"]},
 }
 
 
